@@ -158,17 +158,33 @@ func accessesOf(p *core.Prog, fi *core.FuncInfo, named *types.Named, out map[str
 		out[fv.Name()] = append(out[fv.Name()], a)
 	}
 	seenSel := map[*ast.SelectorExpr]bool{}
-	fl.Walk(func(n ast.Node, st *core.State, b *cfg.Block) {
-		ast.Inspect(n, func(x ast.Node) bool {
-			if lit, ok := x.(*ast.FuncLit); ok {
-				// closures run later (goroutines) or synchronously; lock state unknown: treat as unlocked
-				ast.Inspect(lit.Body, func(y ast.Node) bool {
-					if sel, ok := y.(*ast.SelectorExpr); ok && isT(sel.X) && !seenSel[sel] {
+	var lits []*ast.FuncLit
+	defer func() {
+		for i := 0; i < len(lits); i++ { // lits grows while nested literals are found
+			lit := lits[i]
+			lf := &core.Flow{Prog: p, Info: info, Body: lit.Body, Events: fl.Events}
+			lf.Run()
+			lf.Walk(func(n ast.Node, st *core.State, b *cfg.Block) {
+				ast.Inspect(n, func(x ast.Node) bool {
+					if l2, ok := x.(*ast.FuncLit); ok {
+						lits = append(lits, l2)
+						return false
+					}
+					if sel, ok := x.(*ast.SelectorExpr); ok && isT(sel.X) && !seenSel[sel] {
 						seenSel[sel] = true
-						record(sel, &core.State{Held: map[string]bool{}})
+						record(sel, st)
 					}
 					return true
 				})
+			})
+		}
+	}()
+	fl.Walk(func(n ast.Node, st *core.State, b *cfg.Block) {
+		ast.Inspect(n, func(x ast.Node) bool {
+			if lit, ok := x.(*ast.FuncLit); ok {
+				// closures run later (goroutines) or synchronously: the locks of the enclosing
+				// function do not count, the literal's own Lock/Unlock calls do
+				lits = append(lits, lit)
 				return false
 			}
 			if sel, ok := x.(*ast.SelectorExpr); ok && isT(sel.X) && !seenSel[sel] {
